@@ -197,6 +197,14 @@ def membership(index: RepoIndex, rep, rule: str) -> None:
         for c in conj:
             fac = classify_facet(c, kind)
             if fac is None:
+                # second reading: an expression moved into a new method of another class
+                from ..inline import inline_methods_by_name
+                c2 = inline_methods_by_name(index, c, exclude=('contains', 'positions',
+                                                               'object_types'))
+                fac = classify_facet(c2, kind)
+                if fac is not None:
+                    c = c2
+            if fac is None:
                 rep.violation(rule, SPACES, f'{cname}.contains', f.node.lineno, src(c),
                               f'conjunct `{src(c)[:100]}` is not a facet the space declares: '
                               f'conforming {kind}s could be rejected (or a facet is '
